@@ -348,8 +348,12 @@ Definition get (fields : list text) (v : string) : res text :=
   end.
 Definition has_nul (s : text) : bool := existsb (fun c => c =? 0) s.
 
-(* LexiconReader::parse_record, in the order of the source: columns 0..18, pos_of, the three checks *)
-Definition parse_record (st : pos_state) (f : list text) : res (pos_state * rrow) :=
+(* columns 0..14 of parse_record: strings, numbers, dictionary form, mode -- a function of the row alone *)
+Record head := mkHead {
+  h_surface : text; h_left : Z; h_right : Z; h_cost : Z; h_headword : text; h_pos : posrow;
+  h_reading : text; h_norm : text; h_dic : N; h_mode : N
+}.
+Definition decode_head (f : list text) : res head :=
   do surface <- bind (get f "surface") unescape;
   do lid <- bind (get f "left_id") parse_i16;
   do rid <- bind (get f "right_id") parse_i16;
@@ -365,17 +369,28 @@ Definition parse_record (st : pos_state) (f : list text) : res (pos_state * rrow
   do normalized <- bind (get f "normalized") unescape;
   do dic <- bind (get f "dic_form_id") parse_dic_form;
   do mode <- bind (get f "splitting") parse_mode;
-  do sa <- bind (get f "split_a") (parse_splits st);
-  do sb <- bind (get f "split_b") (parse_splits (fst sa));
+  ROk (mkHead surface lid rid cost headword [p1; p2; p3; p4; p5; p6] reading normalized dic mode).
+(* columns 17 and 18 *)
+Definition decode_tail (f : list text) : res (list N * list N) :=
   do ws <- bind (get f "parts") parse_wordid_list;
   do syn <- match get f "synonyms" with ROk s => parse_u32_list s | RErr _ => ROk [] end;   (* get_or_default *)
-  do sp <- pos_of (fst sb) [p1; p2; p3; p4; p5; p6];
-  if (mode =? 0) && negb (match snd sa, snd sb with [], [] => true | _, _ => false end) then RErr EModeASplits
-  else if match surface with [] => true | _ => false end then RErr EEmptySurface
-  else if has_nul surface then RErr ENulSurface
+  ROk (ws, syn).
+
+(* LexiconReader::parse_record, in the order of the source: columns 0..14, the split columns 15 and 16 (they number the
+   POS of their inline references), columns 17 and 18, pos_of for the row's own POS, the three checks *)
+Definition parse_record (st : pos_state) (f : list text) : res (pos_state * rrow) :=
+  do h <- decode_head f;
+  do sa <- bind (get f "split_a") (parse_splits st);
+  do sb <- bind (get f "split_b") (parse_splits (fst sa));
+  do t <- decode_tail f;
+  do sp <- pos_of (fst sb) (h_pos h);
+  if (h_mode h =? 0) && negb (match snd sa, snd sb with [], [] => true | _, _ => false end) then RErr EModeASplits
+  else if match h_surface h with [] => true | _ => false end then RErr EEmptySurface
+  else if has_nul (h_surface h) then RErr ENulSurface
   else ROk (fst sp,
-            mkRow surface
-                  (mkEntry headword (utf8_len surface) (snd sp) normalized dic reading [] [] ws syn lid rid cost)
+            mkRow (h_surface h)
+                  (mkEntry (h_headword h) (utf8_len (h_surface h)) (snd sp) (h_norm h) (h_dic h) (h_reading h) [] []
+                           (fst t) (snd t) (h_left h) (h_right h) (h_cost h))
                   (snd sa) (snd sb)).
 
 (* read_bytes: the records in file order; the first failing record stops the build *)
